@@ -1,5 +1,229 @@
-"""Sanitizer / interpreter / fuzzer stages (thorough tier). Filled in below."""
+"""Sanitizer / interpreter / fuzzer stages of the thorough tier.
+
+Every stage returns the same record as check.run_mon (result JSON of the monitor
+run under the engine, plus `extra_violations` derived from the engine's own
+reports). An engine that cannot run yields None: the stage is written to the
+evidence as `unavailable` and never becomes a violation.
+"""
+import glob
+import json
+import os
+import re
+import shutil
+import subprocess
+import time
+
+REPO_FRAME = re.compile(r"(/repo/(adss|sharks|star|ppoprf|star-wasm)[^\s:]*\.rs)")
+
+
+def _first_repo_frame(block):
+    m = REPO_FRAME.search(block)
+    return m.group(1).split("/repo/")[-1] if m else None
 
 
 def run_special(kind, st, prop, tier, seed, chk):
+    t0 = time.time()
+    if kind == "tsan":
+        return _tsan(st, prop, tier, seed, chk), time.time() - t0
+    if kind == "miri":
+        return _miri(st, prop, tier, seed, chk), time.time() - t0
+    if kind == "valgrind":
+        return _valgrind(st, prop, tier, seed, chk), time.time() - t0
+    if kind == "fuzz":
+        return _fuzz(st, prop, tier, seed, chk), time.time() - t0
     return None, 0.0
+
+
+# --------------------------------------------------------------------------
+
+def _tsan(st, prop, tier, seed, chk):
+    binary, bdt, note = chk.build("tsan")
+    if binary is None:
+        chk.log("note: TSan build unavailable: %s" % note[-300:])
+        return None
+    logdir = os.path.join(chk.OUT, ".scratch", "tsan-%s-%d" % (prop, os.getpid()))
+    shutil.rmtree(logdir, ignore_errors=True)
+    os.makedirs(logdir)
+    env = {"TSAN_OPTIONS": "halt_on_error=0 exitcode=0 report_signal_unsafe=0 log_path=%s/tsan" % logdir}
+    r = chk.run_mon(binary, prop, tier, seed, st["name"], st.get("timeout", 3000), st.get("args", []), env)
+    blocks = []
+    for f in glob.glob(os.path.join(logdir, "tsan*")):
+        txt = open(f, errors="replace").read()
+        blocks += [b for b in txt.split("==================") if "WARNING: ThreadSanitizer" in b]
+    viol = []
+    seen = set()
+    dep_only = 0
+    for b in blocks:
+        fr = _first_repo_frame(b)
+        if fr is None:
+            dep_only += 1
+            continue
+        kind = re.search(r"WARNING: ThreadSanitizer: ([^\n(]+)", b)
+        sig = "tsan:%s:%s" % ((kind.group(1).strip() if kind else "report").replace(" ", "-"), fr)
+        if sig in seen:
+            continue
+        seen.add(sig)
+        viol.append({"sig": sig, "detail": "ThreadSanitizer report with a frame in the workspace crates (%s)" % fr,
+                     "replay": {"report": b[:3000]}})
+    r["extra_violations"] = viol
+    if r["result"] is not None:
+        r["result"].setdefault("notes", {})["tsan_reports_total"] = len(blocks)
+        r["result"]["notes"]["tsan_reports_dependencies_only"] = dep_only
+        r["result"].setdefault("counters", {})["tsan_reports"] = len(blocks)
+    shutil.rmtree(logdir, ignore_errors=True)
+    return r
+
+
+def _miri(st, prop, tier, seed, chk):
+    tdir = os.path.join(chk.HARNESS, "target-miri")
+    env = dict(chk.ENV)
+    env["CARGO_TARGET_DIR"] = tdir
+    env["MIRIFLAGS"] = st.get("miriflags", "-Zmiri-tree-borrows -Zmiri-disable-isolation")
+    os.makedirs(os.path.join(chk.OUT, ".scratch"), exist_ok=True)
+    shards = st.get("shards", [[]])
+    procs = []
+    t0 = time.time()
+    # first invocation builds; run it alone up to the point where the binary exists
+    b = subprocess.run(["cargo", "+nightly", "miri", "run", "--bin", "mon", "--", "noop"], cwd=chk.HARNESS, env=env,
+                       capture_output=True, text=True, timeout=3000)
+    if "unknown property noop" not in (b.stderr + b.stdout):
+        chk.log("note: Miri unavailable: %s" % (b.stderr or "")[-400:])
+        return None
+    outs = []
+    for i, extra in enumerate(shards):
+        out = os.path.join(chk.OUT, ".scratch", "%s-miri-%d-%d.json" % (prop, i, os.getpid()))
+        if os.path.exists(out):
+            os.remove(out)
+        cmd = ["cargo", "+nightly", "miri", "run", "--bin", "mon", "--", prop, "--tier", tier, "--seed", str(seed),
+               "--stage", st["name"], "--threads", "1", "--out", out] + st.get("args", []) + list(extra)
+        procs.append((subprocess.Popen(cmd, cwd=chk.HARNESS, env=env, stdout=subprocess.PIPE, stderr=subprocess.PIPE, text=True), out, cmd))
+        outs.append(out)
+    merged = None
+    viol = []
+    errs = ""
+    rc_all = 0
+    for p, out, cmd in procs:
+        try:
+            so, se = p.communicate(timeout=st.get("timeout", 2400))
+        except subprocess.TimeoutExpired:
+            p.kill()
+            so, se = p.communicate()
+            errs += "\nwatchdog: miri shard timed out: %s" % " ".join(cmd[-6:])
+            continue
+        rc_all = rc_all or p.returncode
+        if "Undefined Behavior" in se or "error: unsupported operation" in se or "data race" in se.lower():
+            blk = se[se.find("error:"):][:3000] if "error:" in se else se[-3000:]
+            fr = _first_repo_frame(blk) or "dependency"
+            kind = "data-race" if "data race" in blk.lower() else ("unsupported" if "unsupported operation" in blk else "undefined-behaviour")
+            if kind == "unsupported":
+                errs += "\nmiri unsupported operation: " + blk[:300]
+            else:
+                viol.append({"sig": "miri:%s:%s" % (kind, fr), "detail": "Miri reported %s (%s)" % (kind, fr), "replay": {"report": blk, "cmd": " ".join(cmd)}})
+        if os.path.exists(out):
+            try:
+                res = json.load(open(out))
+            except Exception:
+                res = None
+            os.remove(out)
+            if res is not None:
+                if merged is None:
+                    merged = res
+                else:
+                    for k, v in res.get("counters", {}).items():
+                        merged["counters"][k] = merged["counters"].get(k, 0) + v
+                    merged["distinct"] += res.get("distinct", 0)
+                    merged["evals"] += res.get("evals", 0)
+                    merged["violations"] += res.get("violations", [])
+                    merged["violation_count"] += res.get("violation_count", 0)
+                    for k, v in res.get("violation_sigs", {}).items():
+                        merged["violation_sigs"][k] = merged["violation_sigs"].get(k, 0) + v
+        else:
+            errs += "\nshard produced no result: " + se[-300:]
+    return {"rc": rc_all, "stderr": errs[-3000:], "stdout": "", "result": merged, "wall_s": time.time() - t0,
+            "cmd": "cargo +nightly miri run ... (%d shards)" % len(shards), "extra_violations": viol}
+
+
+def _valgrind(st, prop, tier, seed, chk):
+    if shutil.which("valgrind") is None:
+        return None
+    binary, bdt, note = chk.build("release")
+    if binary is None:
+        return None
+    log = os.path.join(chk.OUT, ".scratch", "valgrind-%s-%d.log" % (prop, os.getpid()))
+    wrapper = ["valgrind", "--quiet", "--error-exitcode=0", "--log-file=%s" % log, "--num-callers=30"]
+    r = chk.run_mon(binary, prop, tier, seed, st["name"], st.get("timeout", 3000), st.get("args", []), None, wrapper)
+    viol = []
+    n = 0
+    if os.path.exists(log):
+        txt = open(log, errors="replace").read()
+        blocks = [b for b in re.split(r"\n==\d+== \n", txt) if re.search(r"Invalid (read|write)|uninitialised|Invalid free|Mismatched free|definitely lost", b)]
+        n = len(blocks)
+        seen = set()
+        for b in blocks:
+            fr = _first_repo_frame(b)
+            kind = re.search(r"(Invalid read|Invalid write|uninitialised|Invalid free|Mismatched free|definitely lost)", b).group(1)
+            if kind == "definitely lost":
+                continue
+            sig = "valgrind:%s:%s" % (kind.replace(" ", "-"), fr or "dependency")
+            if sig not in seen:
+                seen.add(sig)
+                viol.append({"sig": sig, "detail": "valgrind memcheck: %s (%s)" % (kind, fr or "in a dependency, reached from the hostile corpus"), "replay": {"report": b[:3000]}})
+        os.remove(log)
+    r["extra_violations"] = viol
+    if r["result"] is not None:
+        r["result"].setdefault("counters", {})["valgrind_error_blocks"] = n
+    return r
+
+
+def _fuzz(st, prop, tier, seed, chk):
+    target = st["target"]
+    fdir = os.path.join(chk.HARNESS, "fuzz")
+    env = dict(chk.ENV)
+    t0 = time.time()
+    if not os.path.exists(os.path.join(fdir, "Cargo.lock")):
+        shutil.copy(os.path.join(chk.HARNESS, "Cargo.lock"), os.path.join(fdir, "Cargo.lock"))
+    b = subprocess.run(["cargo", "+nightly", "fuzz", "build", target], cwd=chk.HARNESS, env=env, capture_output=True, text=True, timeout=3000)
+    if b.returncode != 0:
+        chk.log("note: cargo fuzz build unavailable: %s" % (b.stderr or "")[-400:])
+        return None
+    corpus = os.path.join(fdir, "corpus", target)
+    art = os.path.join(fdir, "artifacts", target)
+    shutil.rmtree(art, ignore_errors=True)
+    os.makedirs(corpus, exist_ok=True)
+    # seed the corpus from the hostile generator (same seed as the run)
+    binary, _, _ = chk.build("release")
+    if binary:
+        subprocess.run([binary, "dump-corpus", "--seed", str(seed), "--set", "dir=%s" % corpus], cwd=chk.HERE, env=env, capture_output=True)
+    secs = st.get("seconds", 60)
+    cmd = ["cargo", "+nightly", "fuzz", "run", target, "--", "-timeout=10", "-max_total_time=%d" % secs, "-fork=%d" % st.get("fork", 16),
+           "-max_len=4096", "-len_control=0", "-ignore_crashes=0", "-seed=%d" % (int(seed) % (2 ** 31))]
+    try:
+        r = subprocess.run(cmd, cwd=chk.HARNESS, env=env, capture_output=True, text=True, timeout=secs + 600)
+        se = r.stderr or ""
+        rc = r.returncode
+    except subprocess.TimeoutExpired:
+        se, rc = "watchdog", -999
+    execs = 0
+    cov = 0
+    for m in re.finditer(r"#(\d+): cov: (\d+)", se):
+        execs = max(execs, int(m.group(1)))
+        cov = max(cov, int(m.group(2)))
+    viol = []
+    crashes = sorted(glob.glob(os.path.join(art, "crash-*")) + glob.glob(os.path.join(art, "oom-*")) + glob.glob(os.path.join(art, "timeout-*")))
+    os.makedirs(chk.REPLAYS, exist_ok=True)
+    for c in crashes[:5]:
+        data = open(c, "rb").read()
+        kept = os.path.join(chk.REPLAYS, "%s-fuzz-%s" % (prop, os.path.basename(c)))
+        shutil.copy(c, kept)
+        why = re.findall(r"(C08-DISAGREEMENT [^\n]+|panicked at [^\n]+|ERROR: AddressSanitizer[^\n]+|ERROR: libFuzzer[^\n]+)", se)
+        kind = os.path.basename(c).split("-")[0]
+        first = why[0] if why else kind
+        sig = "fuzz:%s:%s" % (target, re.sub(r"[^A-Za-z0-9_:.\-/ ]", "", first)[:80].replace(" ", "_"))
+        viol.append({"sig": sig, "detail": "libFuzzer %s on target %s: %s" % (kind, target, "; ".join(why[:3])),
+                     "replay": {"artifact": kept, "input_hex": data[:2048].hex(), "selector_byte": data[0] if data else None}})
+    res = {"counters": {"fuzz_execs:%s" % target: execs, "fuzz_coverage_edges:%s" % target: cov, "fuzz_crash_artifacts": len(crashes)},
+           "distinct": 0, "states": 0, "transitions": 0, "evals": execs, "samples": [], "controls": {}, "notes": {}, "violations": [],
+           "violation_count": 0, "violation_sigs": {}, "exhaustive": False, "panics_caught_total": 0}
+    if execs == 0 and not crashes:
+        return {"rc": rc, "stderr": se[-2000:], "stdout": "", "result": None, "wall_s": time.time() - t0, "cmd": " ".join(cmd), "extra_violations": []}
+    return {"rc": rc, "stderr": se[-1500:], "stdout": "", "result": res, "wall_s": time.time() - t0, "cmd": " ".join(cmd), "extra_violations": viol}
